@@ -1,5 +1,8 @@
 // C20: bch::read on generated containers and their prefixes (see h_tex.rs for the line formats).
 use crate::h_tex::*;
 pub fn run(toks: &[&str]) -> String {
+    if toks[0] == "f32" {
+        return f32_probe(toks, mila::bch::read, bch_tail);
+    }
     run_kind(toks, mila::bch::read, enc_utf8)
 }
